@@ -105,74 +105,83 @@ Proof.
   intros H. apply app_eq_nil in H. destruct H as [H _]. exact (itoa_nonempty _ H).
 Qed.
 
+(* numbers an int holds with room to spare: [fits] (Decimal.v) is |z| <= 2^61 *)
+Ltac fits64 := apply fits_int64; unfold fits in *; lia.
+(* Go's int arithmetic is exact on numbers that fit *)
+Ltac unwrap := repeat match goal with |- context [wrap64 ?z] => rewrite (wrap64_id z) by fits64 end.
+
 (* parseSpan("", spelling) *)
-Lemma parse_span_itoa d n : parse_span d [] (itoa n) = Some (n, d).
+Lemma parse_span_itoa d n : in_int64 n = true -> parse_span d [] (itoa n) = Some (n, d).
 Proof.
-  unfold parse_span. cbn [cut_prefix].
+  intros Hn. unfold parse_span. cbn [cut_prefix].
   rewrite cut_byte_none by (apply numeral_notin; reflexivity).
-  rewrite itoa_atoi. reflexivity.
+  rewrite itoa_atoi64 by exact Hn. reflexivity.
 Qed.
 
 Lemma parse_span_pair d tag a b :
+  in_int64 a = true -> in_int64 b = true ->
   parse_span d tag (tag ++ itoa a ++ [44%N] ++ itoa b) = Some (a, b).
 Proof.
-  unfold parse_span. rewrite cut_prefix_app. cbn [app].
+  intros Ha Hb. unfold parse_span. rewrite cut_prefix_app. cbn [app].
   rewrite cut_byte_first by (apply numeral_notin; reflexivity).
-  rewrite !itoa_atoi. reflexivity.
+  rewrite !itoa_atoi64 by assumption. reflexivity.
 Qed.
 
-Lemma parse_span_single d tag a : parse_span d tag (tag ++ itoa a) = Some (a, d).
+Lemma parse_span_single d tag a : in_int64 a = true -> parse_span d tag (tag ++ itoa a) = Some (a, d).
 Proof.
-  unfold parse_span. rewrite cut_prefix_app.
+  intros Ha. unfold parse_span. rewrite cut_prefix_app.
   rewrite cut_byte_none by (apply numeral_notin; reflexivity).
-  rewrite itoa_atoi. reflexivity.
+  rewrite itoa_atoi64 by exact Ha. reflexivity.
 Qed.
 
 Lemma parse_span_dspan d s e :
+  fits s -> fits e ->
   parse_span d [] (dspan s e) = if e - s =? 1 then Some (s, d) else Some (s, e - 1).
 Proof.
-  unfold dspan, dspan_bare, dspan_single, dspan_lo, dspan_hi.
-  destruct (e - s =? 1); [apply parse_span_itoa|].
-  exact (parse_span_pair d [] s (e - 1)).
+  intros Hs He. unfold dspan, dspan_bare, dspan_single, dspan_lo, dspan_hi.
+  destruct (e - s =? 1); [apply parse_span_itoa; fits64|].
+  apply (parse_span_pair d [] s (e - 1)); fits64.
 Qed.
 
 (* one range of a change command read back *)
 Lemma read_normal_range_dspan s e :
+  fits s -> fits e ->
   e - s = 1 \/ e <> 1 -> read_normal_range (dspan s e) = Some (s, e).
 Proof.
-  intros H. unfold read_normal_range. rewrite parse_span_dspan.
+  intros Hs He H. unfold read_normal_range. rewrite parse_span_dspan by assumption.
   unfold parse_span_omitted_hi, read_normal_lhi_is_omitted, read_normal_lhi_default, read_normal_lhi_end.
   destruct (e - s =? 1) eqn:E.
-  - apply Z.eqb_eq in E. cbn. f_equal. f_equal. lia.
+  - apply Z.eqb_eq in E. cbn [Z.eqb]. rewrite wrap64_id by fits64. f_equal. f_equal. lia.
   - apply Z.eqb_neq in E. destruct (e - 1 =? 0) eqn:E0.
     + apply Z.eqb_eq in E0. lia.
-    + f_equal. f_equal. lia.
+    + rewrite wrap64_id by fits64. f_equal. f_equal. lia.
 Qed.
 
 Lemma read_normal_range_r_dspan s e :
+  fits s -> fits e ->
   e - s = 1 \/ e <> 1 -> read_normal_range_r (dspan s e) = Some (s, e).
 Proof.
-  intros H. unfold read_normal_range_r. rewrite parse_span_dspan.
+  intros Hs He H. unfold read_normal_range_r. rewrite parse_span_dspan by assumption.
   unfold parse_span_omitted_hi, read_normal_rhi_is_omitted, read_normal_rhi_default, read_normal_rhi_end.
   destruct (e - s =? 1) eqn:E.
-  - apply Z.eqb_eq in E. cbn. f_equal. f_equal. lia.
+  - apply Z.eqb_eq in E. cbn [Z.eqb]. rewrite wrap64_id by fits64. f_equal. f_equal. lia.
   - apply Z.eqb_neq in E. destruct (e - 1 =? 0) eqn:E0.
     + apply Z.eqb_eq in E0. lia.
-    + f_equal. f_equal. lia.
+    + rewrite wrap64_id by fits64. f_equal. f_equal. lia.
 Qed.
 
-Lemma read_normal_range_itoa t : read_normal_range (itoa t) = Some (t, t + 1).
+Lemma read_normal_range_itoa t : fits t -> read_normal_range (itoa t) = Some (t, t + 1).
 Proof.
-  unfold read_normal_range. rewrite parse_span_itoa.
+  intros Ht. unfold read_normal_range. rewrite parse_span_itoa by fits64.
   unfold parse_span_omitted_hi, read_normal_lhi_is_omitted, read_normal_lhi_default, read_normal_lhi_end.
-  cbn. reflexivity.
+  cbn [Z.eqb]. rewrite wrap64_id by fits64. reflexivity.
 Qed.
 
-Lemma read_normal_range_r_itoa t : read_normal_range_r (itoa t) = Some (t, t + 1).
+Lemma read_normal_range_r_itoa t : fits t -> read_normal_range_r (itoa t) = Some (t, t + 1).
 Proof.
-  unfold read_normal_range_r. rewrite parse_span_itoa.
+  intros Ht. unfold read_normal_range_r. rewrite parse_span_itoa by fits64.
   unfold parse_span_omitted_hi, read_normal_rhi_is_omitted, read_normal_rhi_default, read_normal_rhi_end.
-  cbn. reflexivity.
+  cbn [Z.eqb]. rewrite wrap64_id by fits64. reflexivity.
 Qed.
 
 (* ---------------------------------------------------------------- change command lines *)
@@ -234,6 +243,14 @@ Proof.
   rewrite cut_byte_none by (apply Hn; [reflexivity|discriminate]).
   rewrite cut_byte_first by (apply span_bytes_notin; [exact Ha|reflexivity]). reflexivity.
 Qed.
+
+(* ---------------------------------------------------------------- what an edit list consumes / produces *)
+Lemma consumed_cons (e : edit line) es :
+  consumed (e :: es) = match eop e with Copy => [] | _ => X e end ++ consumed es.
+Proof. reflexivity. Qed.
+Lemma produced_cons (e : edit line) es :
+  produced (e :: es) = match eop e with Drop => [] | Emit => X e | _ => Y e end ++ produced es.
+Proof. reflexivity. Qed.
 
 (* ---------------------------------------------------------------- lengths *)
 Lemma llen_app {A} (a b : list A) : llen (a ++ b) = llen a + llen b.
